@@ -19,11 +19,9 @@ Print Assumptions C05ops_shift_literal.
 
 (* (a) every pure operation: the node built by Z3Visit::exit from the terms of the children
    (any well-sorted 256-bit terms, i.e. ANY operand words) denotes the EVM's result; no fresh
-   constant is consumed.  z3 leaves the integer power 0^0 unspecified, so for Exp the
-   interpretation must give it the EVM's value 1 (see C05ops_exp / C05ops_exp_needs_pow00). *)
+   constant is consumed.  (Exp is not in pure_sym: see C05ops_exp.) *)
 Theorem C05ops_tr_op_correct : forall M s args n,
   pure_sym s = true -> length args = children s -> Forall bv256 args ->
-  (s = SExp -> i_pow00 M = 1) ->
   snd (tr_node s args n) = n /\
   bv_eval M (fst (tr_node s args n)) = evm_pure s (map (bv_eval M) args).
 Proof. exact tr_op_correct. Qed.
@@ -60,16 +58,30 @@ Proof.
 Qed.
 Print Assumptions C05ops_per_operation.
 
-Theorem C05ops_exp : forall M ta tb, bv256 ta -> bv256 tb ->
-  (bv_eval M ta = 0 -> bv_eval M tb = 0 -> i_pow00 M = 1) ->
-  bv_eval M (t_exp ta tb) = evm_exp (bv_eval M ta) (bv_eval M tb).
-Proof. exact tr_exp_correct. Qed.
+(* Exp.  Literal exponent below 2^64 (BV::as_u64 of the exponent's term is Some): the
+   square-and-multiply chain of 256-bit products denotes base ** exponent exactly, for every base
+   and every such exponent, 0 ** 0 = 1 included ... *)
+Theorem C05ops_exp_literal : forall M ta e, bv256 ta -> 0 <= e < 2 ^ 64 ->
+  bv256 (t_exp_lit ta e) /\ bv_eval M (t_exp_lit ta e) = evm_exp (bv_eval M ta) e.
+Proof. exact tr_exp_lit_correct. Qed.
+Print Assumptions C05ops_exp_literal.
+
+(* ... so the node is exact and consumes no fresh constant; any other exponent: the node is the
+   fresh constant `exp!n` (an unconstrained word, like a state read) *)
+Theorem C05ops_exp : forall M ta tb n, bv256 ta -> bv256 tb ->
+  (forall e, as_u64 tb = Some e ->
+     0 <= e < 2 ^ 64 /\ bv_eval M tb = e /\
+     snd (tr_node SExp [ta; tb] n) = n /\
+     bv_eval M (fst (tr_node SExp [ta; tb] n)) = evm_exp (bv_eval M ta) (bv_eval M tb)) /\
+  (as_u64 tb = None -> tr_node SExp [ta; tb] n = (BFresh "exp" n, S n)).
+Proof. exact tr_exp_node. Qed.
 Print Assumptions C05ops_exp.
 
-Theorem C05ops_exp_needs_pow00 : exists M,
-  bv_eval M (fst (tr_node SExp [c256 0; c256 0] 0)) <> evm_pure SExp [0; 0].
-Proof. exact tr_exp_needs_pow00. Qed.
-Print Assumptions C05ops_exp_needs_pow00.
+(* which expressions are literals for the translation is the syntactic notion of Spec/SymEval.v *)
+Theorem C05ops_literal : forall t, wf_tree t = true -> forall n,
+  as_u64 (fst (tr_tree t n)) = lit64 t.
+Proof. exact tr_tree_lit64. Qed.
+Print Assumptions C05ops_literal.
 
 (* every node is a well-sorted 256-bit term; constants denote their value *)
 Theorem C05ops_node_sort : forall s args n,
@@ -104,8 +116,10 @@ Qed.
 Print Assumptions C05ops_tr_walk.
 
 (* (c) soundness.  E is a concrete execution: entry-stack words, environment words,
-   calldataload/blockhash, and se_read k = the word observed at the k-th state-read node
-   (post-order; k is also the index of the z3 fresh constant created for that node).
+   calldataload/blockhash, and se_read k = the word observed at the k-th unconstrained node
+   (post-order; k is also the index of the z3 fresh constant created for that node): a state
+   read, or an EXP whose exponent is not a literal -- for the latter the user instantiates
+   se_read k with evm_exp of the operand values, as C05ops_example_exp does.
    Under every interpretation that agrees with E the term denotes the value of the tree. *)
 Theorem C05ops_tr_sound_gen : forall M E, agrees M E -> forall t, wf_tree t = true -> forall n,
   bv256 (fst (tr_tree t n)) /\
@@ -126,7 +140,7 @@ Proof. exact tr_sound. Qed.
 Print Assumptions C05ops_tr_sound.
 
 (* ---- non-vacuity ---- *)
-Definition Mex : interp := mkInterp (fun _ => 5) (fun k => Z.of_nat k + 100) (fun _ x => x + 1) 1.
+Definition Mex : interp := mkInterp (fun _ => 5) (fun k => Z.of_nat k + 100) (fun _ x => x + 1).
 Definition MAX : Z := 2 ^ 256 - 1.
 Definition MIN : Z := 2 ^ 255.      (* -2^255 *)
 
@@ -144,8 +158,11 @@ Example C05ops_example_values :
   bv_eval Mex (t_shl (c256 256) (c256 1)) = 0 /\
   bv_eval Mex (t_signextend (c256 0) (c256 0x80)) = MAX - 0x7f /\
   bv_eval Mex (t_signextend (c256 31) (c256 0x80)) = 0x80 /\
-  bv_eval Mex (t_exp (c256 3) (c256 4)) = 81 /\
-  bv_eval Mex (t_exp (c256 0) (c256 0)) = 1.
+  bv_eval Mex (fst (tr_node SExp [c256 3; c256 4] 0)) = 81 /\
+  bv_eval Mex (fst (tr_node SExp [c256 0; c256 0] 0)) = 1 /\
+  bv_eval Mex (t_exp_lit (c256 MAX) 255) = MAX /\
+  tr_node SExp [c256 3; BNamed "etk_var1"] 7 = (BFresh "exp" 7, 8%nat) /\
+  tr_node SExp [c256 3; c256 (2 ^ 64)] 7 = (BFresh "exp" 7, 8%nat).
 Proof. vm_compute. repeat split; reflexivity. Qed.
 
 (* the spec side gives the same numbers *)
@@ -179,13 +196,30 @@ Example C05ops_example_tree :
   is_panic (tr_sexpr [SAdd; SVar 1]) = true /\ is_panic (tr_sexpr []) = true.
 Proof. vm_compute. repeat split; reflexivity. Qed.
 
+(* Exp in a tree: literal exponent (no fresh constant) and non-literal exponent (fresh constant
+   exp!1, created after sload!0); the execution supplies 2 ** 10 for that occurrence *)
+Definition ex_tree_exp : stree :=
+  SNode SAdd [SNode SExp [SNode (SVar 1) []; SNode (SConst 5) []];
+              SNode SExp [SNode (SConst 2) []; SNode SSLoad [SNode (SVar 1) []]]].
+Definition ex_env_exp : senv :=
+  mkSenv (fun _ => 3) (fun _ => 0) (fun x => x) (fun x => x)
+         (fun k => match k with O => 10 | _ => evm_exp 2 10 end).
+Example C05ops_example_exp :
+  wf_tree ex_tree_exp = true /\
+  smt_of_term (fst (tr_tree ex_tree_exp 0)) =
+    "(bvadd (bvmul (bvmul (_ bv1 256) etk_var1) (bvmul (bvmul etk_var1 etk_var1) (bvmul etk_var1 etk_var1))) exp!1)" /\
+  snd (tr_tree ex_tree_exp 0) = 2%nat /\
+  bv_eval (concrete_interp ex_env_exp) (fst (tr_tree ex_tree_exp 0)) = 3 ^ 5 + 2 ^ 10 /\
+  fst (eval_tree ex_env_exp ex_tree_exp 0) = 3 ^ 5 + 2 ^ 10 /\
+  lit64 (SNode SExp [SNode (SVar 1) []; SNode (SConst 0) []]) = Some 1.
+Proof. vm_compute. repeat split; reflexivity. Qed.
+
 (* ---- pins ---- *)
 Check C05ops_range : forall M t, wf_term t = true -> 0 < width t /\ 0 <= bv_eval M t < 2 ^ width t.
 Check C05ops_shift_literal : forall w a b, 0 <= w -> 0 <= b ->
   bvshl w a b = (a * 2 ^ b) mod 2 ^ w /\ (0 <= a < 2 ^ w -> bvlshr w a b = a / 2 ^ b).
 Check C05ops_tr_op_correct : forall M s args n,
   pure_sym s = true -> length args = children s -> Forall bv256 args ->
-  (s = SExp -> i_pow00 M = 1) ->
   snd (tr_node s args n) = n /\
   bv_eval M (fst (tr_node s args n)) = evm_pure s (map (bv_eval M) args).
 Check C05ops_per_operation : forall M ta tb tc, bv256 ta -> bv256 tb -> bv256 tc ->
@@ -204,11 +238,16 @@ Check C05ops_per_operation : forall M ta tb tc, bv256 ta -> bv256 tb -> bv256 tc
   bv_eval M (t_shl ta tb) = evm_shl a b /\ bv_eval M (t_shr ta tb) = evm_shr a b /\
   bv_eval M (t_sar ta tb) = evm_sar a b /\
   bv_eval M (t_signextend ta tb) = evm_signextend a b.
-Check C05ops_exp : forall M ta tb, bv256 ta -> bv256 tb ->
-  (bv_eval M ta = 0 -> bv_eval M tb = 0 -> i_pow00 M = 1) ->
-  bv_eval M (t_exp ta tb) = evm_exp (bv_eval M ta) (bv_eval M tb).
-Check C05ops_exp_needs_pow00 : exists M,
-  bv_eval M (fst (tr_node SExp [c256 0; c256 0] 0)) <> evm_pure SExp [0; 0].
+Check C05ops_exp_literal : forall M ta e, bv256 ta -> 0 <= e < 2 ^ 64 ->
+  bv256 (t_exp_lit ta e) /\ bv_eval M (t_exp_lit ta e) = evm_exp (bv_eval M ta) e.
+Check C05ops_exp : forall M ta tb n, bv256 ta -> bv256 tb ->
+  (forall e, as_u64 tb = Some e ->
+     0 <= e < 2 ^ 64 /\ bv_eval M tb = e /\
+     snd (tr_node SExp [ta; tb] n) = n /\
+     bv_eval M (fst (tr_node SExp [ta; tb] n)) = evm_exp (bv_eval M ta) (bv_eval M tb)) /\
+  (as_u64 tb = None -> tr_node SExp [ta; tb] n = (BFresh "exp" n, S n)).
+Check C05ops_literal : forall t, wf_tree t = true -> forall n,
+  as_u64 (fst (tr_tree t n)) = lit64 t.
 Check C05ops_node_sort : forall s args n,
   wf_sym s = true -> length args = children s -> Forall bv256 args -> bv256 (fst (tr_node s args n)).
 Check C05ops_const : forall M v, 0 <= v < 2 ^ 256 ->
